@@ -75,6 +75,52 @@ theorem stringEnd_stable (t : Bytes) (n : Nat) (h : stringEnd t = some n) (rest 
     · simp_all
     · simp_all
 
+theorem closeComment_stable (t : Bytes) (n : Nat) (h : closeComment t = some n) (rest : Bytes) :
+    closeComment (t.take n ++ rest) = some n := by
+  fun_induction closeComment t generalizing n with
+  | case1 tl => simp at h; subst h; simp [closeComment]
+  | case2 x rest' hno ih =>
+    simp only [Option.map_eq_some_iff] at h
+    obtain ⟨m, hm, rfl⟩ := h
+    have ihm := ih m hm
+    simp only [List.take_succ_cons, List.cons_append]
+    rw [closeComment.eq_def]
+    split
+    · rename_i tl heq
+      simp only [List.cons.injEq] at heq
+      obtain ⟨rfl, heq2⟩ := heq
+      -- the original did not start with `*/`: the byte after `*` is the same here (m ≥ 1)
+      exfalso
+      cases rest' with
+      | nil => simp [closeComment] at hm
+      | cons y ys =>
+        cases m with
+        | zero =>
+          have := closeComment_le _ _ hm
+          have hpos : 0 < 0 := by
+            -- closeComment returns at least 2
+            cases hy : closeComment (y :: ys) with
+            | none => rw [hy] at hm; simp at hm
+            | some k =>
+              rw [hy] at hm
+              injection hm with hm
+              subst hm
+              unfold closeComment at hy
+              split at hy
+              · simp at hy
+              · simp only [Option.map_eq_some_iff] at hy; obtain ⟨_, _, h0⟩ := hy; omega
+              · simp at hy
+          omega
+        | succ m =>
+          simp only [List.take_succ_cons, List.cons_append, List.cons.injEq] at heq2
+          exact hno ys rfl (by rw [heq2.1])
+    · rename_i heq
+      simp only [List.cons.injEq] at heq
+      obtain ⟨rfl, rfl⟩ := heq
+      simp [ihm]
+    · rename_i heq; simp at heq
+  | case3 => simp at h
+
 theorem multilineEnd_stable (u : Bytes) (acc n : Nat) (h : multilineEnd u acc = some n) (rest : Bytes) (hr : HeadLF rest) :
     multilineEnd (u.take (n - acc) ++ rest) acc = some n := by
   fun_induction multilineEnd u acc generalizing n with
@@ -248,7 +294,7 @@ theorem take_one_add (c : UInt8) (l : Bytes) (m : Nat) : (c :: l).take (1 + m) =
 theorem take_add_one' (c : UInt8) (l : Bytes) (m : Nat) : (c :: l).take (m + 1) = c :: l.take m := rfl
 
 /-- **a token is read again as the same token** in front of any text that begins with a separator for its kind -/
-theorem one_stable (t : Bytes) (k : TokKind) (n : Nat) (h : one t = some (k, n)) (hk : k ≠ .bracket_comment)
+theorem one_stable (t : Bytes) (k : TokKind) (n : Nat) (h : one t = some (k, n))
     (rest : Bytes) (hs : Sep k rest) : one (t.take n ++ rest) = some (k, n) := by
   unfold one at h
   split at h
@@ -276,11 +322,19 @@ theorem one_stable (t : Bytes) (k : TokKind) (n : Nat) (h : one t = some (k, n))
       · rename_i hc35
         split at h
         · -- '/'
+          rename_i hc47
           split at h
-          · simp only [Option.map_eq_some_iff] at h
-            obtain ⟨m, _, h2⟩ := h
+          · rename_i r2
+            simp only [Option.map_eq_some_iff] at h
+            obtain ⟨m, hm, h2⟩ := h
             simp only [Prod.mk.injEq] at h2
-            exact absurd h2.1.symm hk
+            obtain ⟨rfl, rfl⟩ := h2
+            have e : (c :: 42 :: r2).take (m + 2) = c :: 42 :: r2.take m := rfl
+            rw [e]
+            simp only [List.cons_append]
+            unfold one
+            simp only [hsing, hc35, hc47, if_true, closeComment_stable _ _ hm]
+            simp
           · simp at h
         · rename_i hc47
           split at h
@@ -462,8 +516,8 @@ abbrev KT := TokKind × Bytes
 
 def kt (t : Tok) : KT := (t.kind, t.text)
 
-/-- the text alone is read as one token of that kind (no bracket comment) -/
-def Genuine (x : KT) : Prop := one x.2 = some (x.1, x.2.length) ∧ x.1 ≠ .bracket_comment
+/-- the text alone is read as one token of that kind -/
+def Genuine (x : KT) : Prop := one x.2 = some (x.1, x.2.length)
 
 /-- `text` is these tokens in order, white space between them, each followed by something that cannot continue it -/
 inductive SWeave : List KT → Bytes → Prop
@@ -495,8 +549,8 @@ theorem SWeave.prepend {ks : List KT} {x : Bytes} (h : SWeave ks x) (w : Bytes) 
 theorem scan_tok (fuel : Nat) (k : TokKind) (txt rest : Bytes) (pos : Nat) (acc : List Tok) (hg : Genuine (k, txt))
     (hsep : Sep k rest) :
     scan (fuel + 1) (txt ++ rest) pos acc = scan fuel rest (pos + txt.length) (⟨k, pos, txt⟩ :: acc) := by
-  obtain ⟨c, r, rfl, hc⟩ := one_head_not_ws _ _ _ hg.1
-  have hst := one_stable _ _ _ hg.1 hg.2 rest hsep
+  obtain ⟨c, r, rfl, hc⟩ := one_head_not_ws _ _ _ hg
+  have hst := one_stable _ _ _ hg rest hsep
   rw [List.take_length] at hst
   simp only [List.cons_append] at hst ⊢
   simp only [scan, hc, Bool.false_eq_true, if_false, hst]
@@ -543,7 +597,7 @@ theorem scan_sweave (ks : List KT) (t : Bytes) (h : SWeave ks t) : ∀ (fuel pos
         | succ fuel => exact ⟨⟨acc.reverse, none, pos + (x :: xs).length⟩, by simp [scan], rfl, by simp⟩
   | cons ws hws k txt ks rest hg hsep hr ih =>
     intro fuel pos acc hf
-    obtain ⟨c, r, hcr, hc⟩ := one_head_not_ws _ _ _ hg.1
+    obtain ⟨c, r, hcr, hc⟩ := one_head_not_ws _ _ _ hg
     have hlen : 1 ≤ txt.length := by
       have : (k, txt).2 = txt := rfl
       rw [this] at hcr; rw [hcr]; simp
@@ -584,8 +638,8 @@ theorem lex_of_sweave (ks : List KT) (t : Bytes) (h : SWeave ks t) :
 theorem sep_nil (k : TokKind) : Sep k [] := by
   cases k <;> simp [Sep, HeadSep, HeadLF]
 
-/-- every token the lexer produces (bracket comments aside) is read as itself when it stands alone -/
-def GTok (tok : Tok) : Prop := tok.kind ≠ .bracket_comment → Genuine (kt tok)
+/-- every token the lexer produces is read as itself when it stands alone -/
+def GTok (tok : Tok) : Prop := Genuine (kt tok)
 
 theorem scan_genuine : ∀ (fuel : Nat) (t : Bytes) (pos : Nat) (acc : List Tok) (r : Result),
     (∀ tok ∈ acc, GTok tok) → scan fuel t pos acc = some r → ∀ tok ∈ r.toks, GTok tok := by
@@ -616,11 +670,10 @@ theorem scan_genuine : ∀ (fuel : Nat) (t : Bytes) (pos : Nat) (acc : List Tok)
           intro tok htok
           simp only [List.mem_cons] at htok
           rcases htok with rfl | htok
-          · intro hk
-            have hst := one_stable _ _ _ hone hk [] (sep_nil k)
+          · have hst := one_stable _ _ _ hone [] (sep_nil k)
             rw [List.append_nil] at hst
-            refine ⟨?_, hk⟩
-            simp only [kt, List.length_take]
+            show one ((c :: rest).take n) = some (k, ((c :: rest).take n).length)
+            simp only [List.length_take]
             rw [Nat.min_eq_left hb.2]
             exact hst
           · exact hacc tok htok
